@@ -277,6 +277,126 @@ theorem zh_designator_examples :
                   { timex := [84, 50, 51, 58, 51, 48], type := sTime, value := some [50, 51, 58, 51, 48, 58, 48, 48] }]) := by
   decide +kernel
 
+
+/-! ## `<date> at <time with a designator phrase>` and the word shift of `merge_date_and_time`
+
+`merge_date_and_time` searches the whole text for a PM word (`afternoon|evening|night`, …) and an AM word (`morning`, …)
+and shifts the hour of the *already parsed* time by twelve. `only = false` is the code as found (always shift), `only = true`
+the variant that shifts an ambiguous time only (finding `night-attached-shift`). -/
+
+/-- C07(d) with a designator phrase: `<date> at h[:mm[:ss]] <am / pm designator>` (1 ≤ h ≤ 12) is the datetime composed of
+the date and the time the phrase designates (`h mod 12`, `+ 12` for pm) — exactly one value — in the repaired variant for
+any words in the text, and in the code as found when the words do not contradict the designator (no AM word next to a pm
+designator, no PM word next to an am designator). Every culture whose suffix style sets `has_pm`. -/
+theorem date_at_designator (u : Uni) (dcfg : DateCfg) (hmax : dcfg.maxTwoDigitYearFuture ≤ 100)
+    (dg : DateGroups) (y mo d : Nat) (hdec : Decodes u dcfg dg y mo d) (hy : 1000 ≤ y ∧ y ≤ 9999)
+    (hvd : (⟨y, mo, d⟩ : Date).valid = true) (wy : Int) (tcfg : TimeCfg) (st : SuffixStyle) (si : SuffixInfo) (pm : Bool)
+    (hd : PlainDesignator si pm) (hst : st.simple = true ∨ st.elsePm = true ∨ pm = false)
+    (hcfg : ∀ s a, tcfg.adjustBySuffix s a = .ok (adjustBySuffixG st si a))
+    (c : Clock) (wf : c.WF u) (h1 : 1 ≤ c.h) (h12 : c.h ≤ 12) (sfx : Str) (hsfx : blank u sfx = false)
+    (pmT amT only : Bool) (hw : only = true ∨ (if pm then amT = false else pmT = false))
+    (ref : DT) (hv : ref.date.valid = true) :
+    resolveDateAtTime u dcfg dg wy tcfg (c.groupsSfx sfx) pmT amT ref only =
+      .ok (some [c.dtValue y mo d (c.h % 12 + if pm then 12 else 0)]) := by
+  rw [resolveDateAtTime_designator u dcfg hmax dg y mo d hdec hy hvd wy tcfg st si pm hd hst hcfg c wf h1 h12 sfx hsfx
+    pmT amT only ref hv]
+  have e : mergeHour (!only) pmT amT (c.h % 12 + if pm then 12 else 0) = c.h % 12 + if pm then 12 else 0 := by
+    rcases hw with rfl | hw
+    · simp [mergeHour]
+    · cases pm
+      · simp only [Bool.false_eq_true, if_false] at hw ⊢
+        subst hw
+        simp only [mergeHour, Nat.add_zero]
+        have a : ¬ (c.h % 12 < 12 → False) → True := fun _ => trivial
+        split
+        · rename_i hc; simp at hc
+        · split
+          · rename_i hc; simp at hc; omega
+          · rfl
+      · simp only [if_true] at hw ⊢
+        subst hw
+        simp only [mergeHour]
+        split
+        · rename_i hc; simp at hc; omega
+        · split
+          · rename_i hc; simp at hc
+          · rfl
+  rw [e]
+
+/-- … and for each culture's configuration (repaired suffix style). -/
+theorem date_at_designator_cultures (u : Uni) (k) (hk : k ∈ cultureStyles true) (flags : List Bool)
+    (ltoh : Option (Str × Str)) (si : SuffixInfo) (pm : Bool) (hd : PlainDesignator si pm)
+    (dcfg : DateCfg) (hmax : dcfg.maxTwoDigitYearFuture ≤ 100) (dg : DateGroups) (y mo d : Nat)
+    (hdec : Decodes u dcfg dg y mo d) (hy : 1000 ≤ y ∧ y ≤ 9999) (hvd : (⟨y, mo, d⟩ : Date).valid = true) (wy : Int)
+    (c : Clock) (wf : c.WF u) (h1 : 1 ≤ c.h) (h12 : c.h ≤ 12) (sfx : Str) (hsfx : blank u sfx = false)
+    (pmT amT only : Bool) (hw : only = true ∨ (if pm then amT = false else pmT = false))
+    (ref : DT) (hv : ref.date.valid = true) :
+    resolveDateAtTime u dcfg dg wy (cultureCfg u k flags ltoh si) (c.groupsSfx sfx) pmT amT ref only =
+      .ok (some [c.dtValue y mo d (c.h % 12 + if pm then 12 else 0)]) := by
+  have hst : k.2.2.2.simple = true ∨ k.2.2.2.elsePm = true ∨ pm = false := by
+    simp only [cultureStyles, List.mem_cons, List.mem_nil_iff, or_false] at hk
+    rcases hk with rfl | rfl | rfl | rfl | rfl | rfl | rfl | rfl <;>
+      simp [enSuffixStyle, simpleSuffixStyle, nightSuffixStyle, nlSuffixStyle]
+  exact date_at_designator u dcfg hmax dg y mo d hdec hy hvd wy _ k.2.2.2 si pm hd hst (fun _ _ => rfl) c wf h1 h12 sfx hsfx
+    pmT amT only hw ref hv
+
+/-- the suffix outcome of `in the night` (English: pm group, night rule) -/
+def siNight : SuffixInfo := { full := true, pm := [110, 105, 103, 104, 116], night := true }
+
+/-- `2`, and the date groups of `3/5/2019` -/
+def clock2 : Clock := { hs := [50], h := 2 }
+def dg352019 : DateGroups := { year := [50, 48, 49, 57], month := [51], day := [53] }
+def enDateCfg : DateCfg :=
+  { monthOfYear := monthOfYear_en, dayOfMonth := dayOfMonth_en, minTwoDigitYearPast := minTwoDigitYearPastNum,
+    maxTwoDigitYearFuture := maxTwoDigitYearFutureNum }
+
+/-- Negative witness (code as found, finding `night-attached-shift`): alone, `2 in the night` is 02:00 (the night rule of
+`adjust_by_suffix`) … -/
+theorem night_alone_is_2am :
+    (resolveTime asciiUni (cultureCfg asciiUni ("en-us", numbers_en, enPrefixStyle, enSuffixStyle true) [] none siNight)
+      (clock2.groupsSfx [105, 110]) refWitness).toOption =
+      some (some [{ timex := [84, 48, 50], type := sTime, value := some [48, 50, 58, 48, 48, 58, 48, 48] }]) := by
+  decide +kernel
+
+/-- … but `3/5/2019 at 2 in the night` is 14:00, because `merge_date_and_time` finds the PM word `night` in the text and
+adds twelve hours to the hour the time parser had already resolved; the variant that shifts ambiguous times only keeps 02:00. -/
+theorem night_attached_shift :
+    (resolveDateAtTime asciiUni enDateCfg dg352019 0
+        (cultureCfg asciiUni ("en-us", numbers_en, enPrefixStyle, enSuffixStyle true) [] none siNight)
+        (clock2.groupsSfx [105, 110]) true false refWitness false).toOption =
+      some (some [{ timex := [50, 48, 49, 57, 45, 48, 51, 45, 48, 53, 84, 49, 52], type := sDateTime,
+                    value := some [50, 48, 49, 57, 45, 48, 51, 45, 48, 53, 32, 49, 52, 58, 48, 48, 58, 48, 48] }]) ∧
+    (resolveDateAtTime asciiUni enDateCfg dg352019 0
+        (cultureCfg asciiUni ("en-us", numbers_en, enPrefixStyle, enSuffixStyle true) [] none siNight)
+        (clock2.groupsSfx [105, 110]) true false refWitness true).toOption =
+      some (some [{ timex := [50, 48, 49, 57, 45, 48, 51, 45, 48, 53, 84, 48, 50], type := sDateTime,
+                    value := some [50, 48, 49, 57, 45, 48, 51, 45, 48, 53, 32, 48, 50, 58, 48, 48, 58, 48, 48] }]) := by
+  decide +kernel
+
+/-- A plain clock time next to a PM word (`at 3 tomorrow afternoon` — time `3`, ambiguous): the word decides, hour
+1–11 ↦ h + 12, one value; both variants. -/
+theorem date_word_shift (u : Uni) (ha : u.Ascii) (dcfg : DateCfg) (hmax : dcfg.maxTwoDigitYearFuture ≤ 100)
+    (dg : DateGroups) (y mo d : Nat) (hdec : Decodes u dcfg dg y mo d) (hy : 1000 ≤ y ∧ y ≤ 9999)
+    (hvd : (⟨y, mo, d⟩ : Date).valid = true) (wy : Int) (tcfg : TimeCfg) (c : Clock) (wf : c.WF u)
+    (h1 : 1 ≤ c.h) (h11 : c.h ≤ 11) (only : Bool) (ref : DT) (hv : ref.date.valid = true) :
+    resolveDateAtTime u dcfg dg wy tcfg (c.groups false false) true false ref only =
+      .ok (some [c.dtValue y mo d (c.h + 12)]) := by
+  have w60 := wf_m60 u c wf
+  have hp : pivotYear dcfg y = y := pivot_four dcfg y (by omega) hmax
+  have ah : adjHour c.h false false = c.h := by simp [adjHour]
+  have hc : (0 < c.h ∧ c.h ≤ 12 ∧ false = false ∧ false = false) := ⟨by omega, by omega, rfl, rfl⟩
+  have eq : (sAmPm == sAmPm) = true := by decide
+  simp only [resolveDateAtTime, matchToDate_of u dcfg dg y mo d y wy ref hdec hp (by omega), safeCreate_valid y mo d hvd,
+    matchToTime_clock u tcfg c false false ref wf (Or.inr (by omega)) hv, bind, Except.bind, Option.getD_some, ah, hc,
+    and_self, if_true]
+  rw [merge_clock_words c w60 c.h (by omega) _ _ y mo d hvd _ ⟨rfl, rfl, rfl⟩ true false only]
+  have mh : mergeHour (!only || sAmPm == sAmPm) true false c.h = c.h + 12 := by
+    have : c.h < 12 := by omega
+    simp [mergeHour, eq, this]
+  have nc : ¬ (c.h + 12 ≤ 12) := by omega
+  simp only [mh, nc, false_and, if_false]
+  exact dtRes_datetime_plain u _ y mo d _ c.m c.s (by omega) (by omega)
+
 /-- shape of the TIMEX: `T`, two digits, then `:mm` / `:ss` exactly for the parts that were written -/
 theorem short_time_shape (c : Clock) (hh : Nat) (h : hh < 100) :
     c.timex hh = [84, 48 + hh / 10, 48 + hh % 10] ++ c.tail := by
